@@ -104,6 +104,9 @@ Definition dispatch (f : bytes) (a : list bytes) : list bytes :=
   else if isf f "srctext" then
     (* args: the content T of `<p>T</p>`.  reply: in the fragment?, guard, document by model/SrcTextParse.v, document by spec/SrcText.v *)
     [b2 (SrcTextParse.in_frag (arg 0 a)); b2 (SrcTextParse.no_byte_space_lead (arg 0 a)); SrcTextParse.doc_code (arg 0 a); SrcText.doc_spec (arg 0 a)]
+  else if isf f "srclines" then
+    (* args: the lines L1..Ln.  reply: every line in the fragment?, every line passes the guard?, document by model, document by spec *)
+    [b2 (forallb SrcTextParse.in_frag a); b2 (forallb SrcTextParse.no_byte_space_lead a); SrcTextParse.doc_code_lines a; SrcText.doc_spec_lines a]
   else [bs "?"].
 
 Extraction "model.ml" dispatch.
